@@ -404,7 +404,8 @@ static ares_status_t process_option(ares_sysconfig_t *sysconfig,
   size_t        num = 0;
   const char   *key;
   const char   *val;
-  unsigned int  valint = 0;
+  unsigned int  valint    = 0;
+  ares_bool_t   valint_ok = ARES_FALSE; /* a decimal number was given */
   ares_status_t status;
 
   /* Split on : */
@@ -421,20 +422,30 @@ static ares_status_t process_option(ares_sysconfig_t *sysconfig,
 
   key = kv[0];
   if (num == 2) {
-    val    = kv[1];
-    valint = (unsigned int)strtoul(val, NULL, 10);
+    val = kv[1];
+    /* Only accept a plain decimal number; strtoul() on its own would turn
+     * "abc" (or a missing value) into 0.  Up to 9 digits always fit, anything
+     * longer is not a sensible value for any option and would wrap. */
+    if (ares_str_isnum(val) && ares_strlen(val) <= 9) {
+      valint    = (unsigned int)strtoul(val, NULL, 10);
+      valint_ok = ARES_TRUE;
+    }
   }
 
   if (ares_streq(key, "ndots")) {
+    if (!valint_ok) {
+      status = ARES_EFORMERR;
+      goto done;
+    }
     sysconfig->ndots = valint;
   } else if (ares_streq(key, "retrans") || ares_streq(key, "timeout")) {
-    if (valint == 0) {
+    if (!valint_ok || valint == 0) {
       status = ARES_EFORMERR;
       goto done;
     }
     sysconfig->timeout_ms = valint * 1000;
   } else if (ares_streq(key, "retry") || ares_streq(key, "attempts")) {
-    if (valint == 0) {
+    if (!valint_ok || valint == 0) {
       status = ARES_EFORMERR;
       goto done;
     }
